@@ -100,6 +100,14 @@ def snapshot(root):
     return out
 
 
+def merge_layers(C, layers):
+    """the configuration load_config builds from these layer texts (user, project, env): parse each, merge in order"""
+    cfg = C.Config()
+    for i, t in enumerate(layers):
+        cfg = C._merge_configs(cfg, C.parse_config(t, source="layer%d" % i) if "source" in C.parse_config.__code__.co_varnames else C.parse_config(t))
+    return cfg
+
+
 def search(ctx):
     from dippy.core import config as C
     from dippy.core.analyzer import analyze
@@ -127,6 +135,16 @@ def search(ctx):
         step = 1 if ctx.tier == "thorough" or ctx.broken else 3
         off = r.randrange(step)
         sweep = [x for i, x in enumerate(sweep) if i % step == off]
+        # layered configurations (user file, project file, $DIPPY_CONFIG merge in this order; rules accumulate): a grant and the
+        # rule that withdraws part of it, spread over the layers in every order that leaves the withdrawal last - also when the
+        # withdrawing line is written in an earlier layer as well (a project file often repeats the user's rules)
+        W = "@WORK@"
+        pairs = [("allow-redirect " + W + "/okdir/**", "deny-redirect " + W + "/okdir/deep/**", "okdir/deep/b"), ("allow-redirect " + W + "/**", "deny-redirect " + W + "/no \"no\"", "no"),
+                 ("allow-redirect f", "ask-redirect **/f", "f"), ("allow-redirect " + W + "/okdir/**", "ask-redirect " + W + "/okdir/a \"asked\"", "okdir/a"), ("allow-redirect sub/**", "deny-redirect " + W + "/sub/x", "sub/x")]
+        for grant, withdraw, t in pairs:
+            for layers in ([[withdraw], [grant, withdraw]], [[withdraw, grant], [withdraw]], [[withdraw], [grant], [withdraw]], [[grant], [withdraw]], [[grant, withdraw], [withdraw]], [[withdraw], [], [grant, withdraw]]):
+                for x in ("echo hi > " + t, "echo hi | tee " + t, "{ echo hi; } >> " + t):
+                    sweep.append({"x": x, "layers": ["\n".join(l) + "\n" if l else "" for l in layers]})
         stats["sweep_commands"] = len(sweep)
 
         def run_many(jail, k):
@@ -148,13 +166,31 @@ def search(ctx):
                     lp = os.path.join(work, link)
                     if not os.path.lexists(lp):
                         os.symlink(dest, lp)
-                if it < len(mine):
+                layers = None
+                if it < len(mine) and isinstance(mine[it], dict):
+                    layers = [t.replace("@WORK@", work) for t in mine[it]["layers"]]
+                    x, cd = mine[it]["x"], None
+                elif it < len(mine):
                     cfg_text = "allow-redirect " + work + "/ok\nallow-redirect " + work + "/okdir/**\ndeny-redirect " + work + "/no \"no\"\nask-redirect " + work + "/q\n"
                     x, cd = mine[it].replace("@WORK@", work), None
                 else:
                     cfg_text = config_for(work, rr)
                     x, cd = gen_case(rr, work)
-                cfg = C.parse_config(cfg_text)
+                    if rr.chance(0.3):
+                        # the same rules in layers, one or two lines repeated further down
+                        lines = cfg_text.splitlines()
+                        for _ in range(rr.randint(1, 2)):
+                            i0 = rr.randrange(len(lines))
+                            lines.insert(rr.randint(i0 + 1, len(lines)), lines[i0])
+                        c1, c2 = sorted([rr.randint(0, len(lines)), rr.randint(0, len(lines))])
+                        layers = ["".join(l + "\n" for l in part) for part in (lines[:c1], lines[c1:c2], lines[c2:])]
+                if layers is not None:
+                    # the reference: rules accumulate in load order, so the layers read like their concatenation (property C14)
+                    cfg_text = "".join(layers)
+                    cfg = merge_layers(C, layers)
+                    oracle_cfg = C.parse_config(cfg_text)
+                else:
+                    cfg = oracle_cfg = C.parse_config(cfg_text)
                 d = analyze(x, cfg, Path(work))
                 if d.action != "allow":
                     out.append(("skip", d.action))
@@ -182,10 +218,10 @@ def search(ctx):
                     real = os.path.realpath(p)
                     # a relative rule pattern means "relative to the directory the shell is in": after a leading literal
                     # `cd sub` bash writes from <work>/sub
-                    m = C.match_redirect(real, cfg, Path(os.path.join(work, "sub")) if cd == "first-literal" else Path(os.path.join(work, "okdir")) if cd == "okdir-literal" else Path(work))
+                    m = C.match_redirect(real, oracle_cfg, Path(os.path.join(work, "sub")) if cd == "first-literal" else Path(os.path.join(work, "okdir")) if cd == "okdir-literal" else Path(work))
                     if m is None or m.decision != "allow":
                         bad.append(os.path.relpath(real, work))
-                out.append(("ran", x, cfg_text.replace(work, "<work>"), cd, [os.path.relpath(p, work) for p in changed], bad))
+                out.append(("ran", x, cfg_text.replace(work, "<work>"), cd, [os.path.relpath(p, work) for p in changed], bad, None if layers is None else [t.replace(work, "<work>") for t in layers]))
             return out
 
         with ThreadPoolExecutor(workers) as ex:
@@ -199,14 +235,15 @@ def search(ctx):
         if res[0] == "skip":
             stats["verdict:" + res[1]] += 1
             continue
-        _, x, cfg_text, cd, changed, bad = res
+        _, x, cfg_text, cd, changed, bad, layers = res
+        stats["layered_configs"] += layers is not None
         stats["verdict:allow"] += 1
         stats["bash_runs"] += 1
         distinct.add(x)
         if changed:
             stats["runs_that_wrote"] += 1
         if bad:
-            vios.append({"input": {"command": x, "config": cfg_text, "cwd": "<work>"}, "observed": {"verdict": "allow", "files_changed": changed, "not_granted": bad}, "required": "an approved command modifies only files granted by an allow-redirect rule not overridden later", "oracle": "file-tree-diff", "cd_position": cd})
+            vios.append({"input": {"command": x, "config": cfg_text, "cwd": "<work>", "layers": layers}, "observed": {"verdict": "allow", "files_changed": changed, "not_granted": bad}, "required": "an approved command modifies only files granted by an allow-redirect rule not overridden later" + (" (the configuration is loaded in layers: user file, project file, $DIPPY_CONFIG)" if layers else ""), "oracle": "file-tree-diff", "cd_position": cd})
         elif changed and len(samples) < 3:
             samples.append({"command": x, "config": cfg_text, "files_changed": changed})
     return {"violations": vios[:40], "evaluations": stats["evaluations"], "distinct_nontrivial": len(distinct), "stats": dict(stats), "samples": samples, "oracle": "approved commands run by real bash + real text tools; changed files vs match_redirect(realpath)"}
@@ -237,7 +274,11 @@ def replay(payload) -> int:
     with Jail(["ls", "git", "true"], real=["tee", "sort", "sed", "awk", "iconv", "cat", "touch"]) as j:
         j.reset()
         work = j.work
-        cfg = C.parse_config(inp["config"].replace("<work>", work))
+        if inp.get("layers"):
+            cfg = merge_layers(C, [t.replace("<work>", work) for t in inp["layers"]])
+            print("configuration loaded in layers:", inp["layers"])
+        else:
+            cfg = C.parse_config(inp["config"].replace("<work>", work))
         d = analyze(inp["command"], cfg, Path(work))
         print("verdict now:", d.action, "|", d.reason)
     print("recorded:", payload.get("observed"), "\nrequired:", payload.get("required"))
